@@ -574,7 +574,7 @@ PAT_CHILDREN = {'MatchValue': '7', 'MatchSingleton': 'None', 'MatchAsName': 'zz'
                 'MatchSequence': 'p, q', 'MatchSequenceBr': '[p, q]', 'MatchMapping': '{1: p}', 'MatchClass': 'C(p)',
                 'MatchValueAttr': 'a.b', 'Wildcard': '_'}
 
-LAYOUTS = ['bare', 'pars', 'multi_pars', 'multi_cont', 'comment']
+LAYOUTS = ['bare', 'pars', 'multi_pars', 'multi_cont', 'comment', 'comment_bs']
 
 
 def layout(src, how, is_tuple_like):
@@ -592,6 +592,8 @@ def layout(src, how, is_tuple_like):
         return toks[0] + ' \\\n  ' + ' '.join(toks[1:])
     if how == 'comment':
         return None if src.startswith('*') else '(' + toks[0] + '  # cmt\n ' + ' '.join(toks[1:]) + ')'
+    if how == 'comment_bs':     # a comment that ENDS in a backslash is not a line continuation
+        return None if src.startswith('*') else '(' + toks[0] + '  # see C:\\tmp\\\n ' + ' '.join(toks[1:]) + ')'
     return None
 
 
@@ -710,7 +712,8 @@ def replace_jobs(ctx, full):
 
 
 def _sig(r):
-    return f'C09|{r.get("via", "replace")}|{r["slot"][0]}.{r["slot"][1]}|{r["child"]}|{"no-parse" if "does not parse" in r.get("fail", "") else "regroup"}'
+    cls = "no-parse" if "does not parse" in r.get("fail", "") else "regroup"
+    return f'C09|{r.get("via", "replace")}|{r["slot"][0]}.{r["slot"][1]}|{r["child"]}|{r["layout"]}|{cls}'
 
 
 def sweep(ctx):
